@@ -12,6 +12,7 @@ import (
 	"sort"
 	"strings"
 	"sync"
+	"sync/atomic"
 	"testing"
 	"time"
 
@@ -663,4 +664,155 @@ func TestConcurrentCorpus(t *testing.T) {
 	rec.EvalN(int64(W * rounds * len(items)))
 	rec.Class("concurrent_corpus_runs")
 	rec.NT(stats.HashS("concurrent-corpus", fmt.Sprint(shard)))
+}
+
+// TestFreshRegistryReads (C10): what a registry builds on first use it builds once - so every round makes a fresh
+// registry (a Filter result nobody has touched), lets six goroutines loop over its read calls, and has a seventh
+// make one call "for the first time" in the middle of them (names, listing, sources, a filter, a lint run, the
+// example configuration - another one each round). No panic, the answers equal those of an untouched twin registry
+// asked alone, and every round ends: a round that does not end within 60 s is a deadlock (the goroutine dump is kept).
+func TestFreshRegistryReads(t *testing.T) {
+	prop := os.Getenv("VERIF_PROPERTY")
+	if prop == "" {
+		prop = "C10"
+	}
+	rec := stats.New(prop)
+	t.Cleanup(rec.Flush)
+	co := gen.LoadCorpus()
+	shard, _ := stats.Shard()
+	g := lint.GlobalRegistry()
+	runtime.GOMAXPROCS([]int{2, 4, 8, 16}[shard%4])
+	var cert *x509.Certificate
+	for _, o := range co.Certs {
+		if c, ok := gen.ParseCert(o.DER); ok {
+			cert = c
+			break
+		}
+	}
+	opts := []lint.FilterOptions{
+		{IncludeSources: lint.SourceList{lint.RFC5280, lint.CABFBaselineRequirements, lint.RFC6960}},
+		{ExcludeNames: []string{"e_ca_country_name_missing"}},
+		{IncludeNames: []string{"e_ca_country_name_missing", "e_crl_has_next_update", "e_this_update_not_after_produced_at", "w_ext_ian_critical", "e_ext_san_missing"}},
+		{NameFilter: regexp.MustCompile("^e_ext")},
+	}
+	firsts := []struct {
+		name string
+		f    func(r lint.Registry) string
+	}{
+		{"Names", func(r lint.Registry) string { return strings.Join(r.Names(), ",") }},
+		{"WriteJSON", func(r lint.Registry) string { var b bytes.Buffer; r.WriteJSON(&b); return sortedLines(b.String()) }},
+		{"Sources", func(r lint.Registry) string { return fmt.Sprint(len(r.Sources())) }},
+		{"Filter", func(r lint.Registry) string {
+			x, err := r.Filter(lint.FilterOptions{ExcludeSources: lint.SourceList{lint.EtsiEsi}})
+			if err != nil {
+				return "error"
+			}
+			return strings.Join(x.Names(), ",")
+		}},
+		{"Lint", func(r lint.Registry) string {
+			if cert == nil {
+				return ""
+			}
+			c2 := *cert
+			return engine.Digest(zlint.LintCertificateEx(&c2, r))
+		}},
+		{"DefaultConfiguration", func(r lint.Registry) string { b, _ := r.DefaultConfiguration(); return fmt.Sprint(len(b)) }},
+		{"KindNames", func(r lint.Registry) string {
+			return fmt.Sprint(len(r.CertificateLints().Names()), len(r.RevocationListLints().Names()), len(r.OcspResponseLints().Names()))
+		}},
+	}
+	loopers := []func(r lint.Registry){
+		func(r lint.Registry) {
+			for _, s := range []lint.LintSource{lint.RFC5280, lint.CABFBaselineRequirements, lint.RFC6960, lint.Community} {
+				_ = r.CertificateLints().BySource(s)
+				_ = r.RevocationListLints().BySource(s)
+				_ = r.OcspResponseLints().BySource(s)
+				_ = r.BySource(s) //nolint:staticcheck
+			}
+		},
+		func(r lint.Registry) {
+			_ = r.CertificateLints().ByName("e_ca_country_name_missing")
+			_ = r.ByName("e_ext_san_missing") //nolint:staticcheck
+		},
+		func(r lint.Registry) {
+			_, _, _ = r.CertificateLints().Lints(), r.RevocationListLints().Lints(), r.OcspResponseLints().Lints()
+		},
+		func(r lint.Registry) {
+			_, _, _ = r.CertificateLints().Sources(), r.RevocationListLints().Sources(), r.OcspResponseLints().Sources()
+		},
+		func(r lint.Registry) { _ = r.GetConfiguration() },
+		func(r lint.Registry) { _ = r.Sources() },
+	}
+	rounds := stats.Scale(250, 3000)
+	for round := 0; round < rounds; round++ {
+		o := opts[(round+shard)%len(opts)]
+		reg, err1 := g.Filter(o)
+		twin, err2 := g.Filter(o)
+		if err1 != nil || err2 != nil {
+			continue
+		}
+		first := firsts[(round/len(opts)+shard)%len(firsts)]
+		var wg sync.WaitGroup
+		var stop atomic.Bool
+		var running sync.WaitGroup
+		panics := make(chan string, 8)
+		for li := range loopers {
+			wg.Add(1)
+			running.Add(1)
+			go func(li int) {
+				defer wg.Done()
+				defer func() {
+					if r := recover(); r != nil {
+						panics <- fmt.Sprint(r)
+					}
+				}()
+				f := loopers[(li+round)%len(loopers)]
+				f(reg)
+				running.Done()
+				for i := 0; i < 400 && !stop.Load(); i++ {
+					f(reg)
+				}
+			}(li)
+		}
+		var got string
+		wg.Add(1)
+		go func() {
+			defer wg.Done()
+			defer func() {
+				if r := recover(); r != nil {
+					panics <- fmt.Sprint(r)
+				}
+			}()
+			running.Wait()
+			got = first.f(reg)
+			stop.Store(true)
+		}()
+		done := make(chan struct{})
+		go func() { wg.Wait(); close(done) }()
+		select {
+		case <-done:
+		case <-time.After(60 * time.Second):
+			buf := make([]byte, 1<<20)
+			n := runtime.Stack(buf, true)
+			msg := fmt.Sprintf("round %d: the first %s on a fresh registry, made while six goroutines loop over its read calls, did not return within 60 s; goroutines:\n%s", round, first.name, buf[:n])
+			rec.Report("c10", "deadlock", msg, program{})
+			rec.Flush()
+			fmt.Println("DEADLOCK recorded; leaving the process")
+			os.Exit(1)
+		}
+		close(panics)
+		for p := range panics {
+			if rec.Report("c10", "panic|registry-read", fmt.Sprintf("round %d (first %s): %s", round, first.name, p), program{}) {
+				t.Fatalf("panic in registry reads: %s", p)
+			}
+		}
+		if want := first.f(twin); got != want {
+			if rec.Report("c10", "read-differs-from-sequential|"+first.name, fmt.Sprintf("round %d: the first %s on a fresh registry answered %s while six goroutines were reading it, and %s on an untouched twin asked alone", round, first.name, short(got), short(want)), program{}) {
+				t.Fatalf("first %s differs", first.name)
+			}
+		}
+		rec.Eval()
+	}
+	rec.Class("fresh_registry_rounds")
+	rec.NT(stats.HashS("fresh-registry", fmt.Sprint(shard)))
 }
